@@ -10,6 +10,7 @@ import ast
 import os
 import random
 import symtable
+import warnings
 
 from .core import VERIF_DIR
 
@@ -48,6 +49,22 @@ SHORT = {
     "nonlocal_chain": (
         "def a(x, y, z):\n    def b(u, v):\n        def c():\n            nonlocal x, u\n            x = x + u + v + y + z\n            return x\n"
         "        return c\n    return b\nprint(a(1, 2, 3)(4, 5)())\n"
+    ),
+    "super_capture": (
+        "class Base:\n    def greet(self):\n        return 'hello'\n"
+        "def make(prefix, suffix, sep):\n    tag = prefix + suffix\n    class Child(Base):\n        def greet(self):\n"
+        "            return prefix + sep + super().greet() + sep + suffix + tag\n        def cls_name(self):\n"
+        "            return (__class__.__name__, sep, tag)\n    return Child\nprint(make('a', 'b', '-')().greet())\n"
+    ),
+    "many_frees": (
+        "def outer(a1, a2, a3, a4):\n    b1 = a1\n    b2 = a2\n    def mid(c1, c2):\n        nonlocal b1\n        b1 = c1\n"
+        "        def inner():\n            nonlocal b2, c2\n            b2 = c2 = a3\n            return (a1, a2, a4, b1, b2, c1, c2)\n"
+        "        return inner\n    return mid\nprint(outer(1, 2, 3, 4)(5, 6)())\n"
+    ),
+    "class_in_class_in_func": (
+        "def f(x, y, z):\n    class A:\n        ax = x\n        class B:\n            by = y\n            def m(self, w=z):\n"
+        "                return (x, y, w, __class__)\n        def n(self):\n            return [x + q for q in (y, z)]\n    return A\n"
+        "print(f(1, 2, 3).B().m()[:3])\n"
     ),
     "global_decl": "g = 0\ndef f():\n    global g\n    g += 1\n    return g\nf()\nprint(g)\n",
     # --- classes -------------------------------------------------------------------
@@ -298,8 +315,19 @@ class ProgGen:
             cctx = dict(depth=ctx["depth"] + 1, loop=False, func=False, cls=True, assignable=members)
             out = [ind + "class %s%s:" % (cname, r.choice(["", "(object)", "()"]))]
             out += self.block(ind + "    ", cctx, list(names), n=r.randint(1, 3))
-            if r.random() < 0.5:
-                out += [ind + "    def meth(self, mp):", ind + "        return %s" % r.choice(["super().__repr__()", "mp", "self", "__class__"])]
+            for mi in range(r.choice([0, 1, 1, 2])):
+                # methods read names of the enclosing scopes (-> free variables next to the implicit
+                # __class__ cell when super()/__class__ is used)
+                mlocs = [self.fresh("lv")]
+                mctx = dict(depth=ctx["depth"] + 2, loop=False, func=True, cls=False, assignable=mlocs)
+                mnames = ["self", "mp"] + [n for n in names if not n.startswith("m")]
+                out.append(ind + "    def meth%d(self, mp=None):" % mi)
+                out += self.block(ind + "        ", mctx, mnames, n=r.randint(0, 2)) if r.random() < 0.6 else []
+                tail = r.choice(["super().__repr__()", "mp", "self", "__class__", "super().__init__()", "__class__.__name__"])
+                reads = [n for n in mnames if n not in ("self", "mp")]
+                if reads and r.random() < 0.7:
+                    tail = "(%s, %s)" % (tail, ", ".join(r.sample(reads, min(len(reads), r.randint(1, 3)))))
+                out.append(ind + "        return %s" % tail)
             names.append(cname)
             return out
         if k == "import":
@@ -329,9 +357,11 @@ def gen_program(seed: int) -> str:
         if "__ol_" in src:
             continue
         try:
-            ast.parse(src)
-            symtable.symtable(src, "<gen>", "exec")
-            compile(src, "<gen>", "exec")
+            with warnings.catch_warnings():
+                warnings.simplefilter("ignore")
+                ast.parse(src)
+                symtable.symtable(src, "<gen>", "exec")
+                compile(src, "<gen>", "exec")
         except (SyntaxError, ValueError, RecursionError):
             continue
         return src
